@@ -1,0 +1,10 @@
+//go:build verif
+
+// Contracts for the gowp verifier (/verif): comment-only file, compiled only with -tags verif.
+package asn1tools
+
+//@ func asn1tools.MarshalLengthBytes(l) (r)
+//@   trusted the loop leaves through a data-dependent break and its termination argument needs l % p == 0 for symbolic p (modular arithmetic the solvers do not decide); bounded stand-in in C13 runs the real function for all l in 0..2^24 and at the 2^31, 2^32, 2^48 boundaries
+//@   pure
+//@   requires 0 <= l && l < 72057594037927936
+//@   ensures len(r) >= 1 && len(r) <= 9
